@@ -111,6 +111,9 @@ pub struct SrcState {
     /// calls made after the first `Ok(0)` at the end / terminal error (forbidden by C09)
     pub calls_after_terminal: u32,
     pub zero_len_requests: u32,
+    /// largest stream position at which a (non-empty) read call was issued so far: the subject had
+    /// received that many bytes and asked for more
+    pub max_pos_at_call: usize,
     pub max_request: usize,
     pub script_pos: usize,
     pub interrupts_left: u32,
@@ -154,6 +157,7 @@ impl Read for ScriptedSource<'_> {
             st.zero_len_requests += 1;
             return Ok(0);
         }
+        st.max_pos_at_call = st.max_pos_at_call.max(st.pos);
         let end = self.cfg.fault_at.map_or(self.cfg.data.len(), |k| k.min(self.cfg.data.len()));
         let mut fit = buf.len().min(end.saturating_sub(st.pos));
         if let Some(bs) = self.cfg.boundaries {
